@@ -119,3 +119,12 @@ func (h *hclock) advance(d time.Duration, after func(now time.Time)) (dropped bo
 	}
 	return dropped
 }
+
+// timerState: diagnostic only.
+func (h *hclock) timerState() string {
+	if h.stuck || !bounded(h.smu.Lock) {
+		return "scheduler mutex not available"
+	}
+	defer h.smu.Unlock()
+	return fmt.Sprintf("armed=%v next=%v mock.now=%v pending-tick=%d", !*h.tStop, h.tNext.UTC().Format("15:04:05.000"), h.Mock.Now().UTC().Format("15:04:05.000"), len(h.timers[0].C))
+}
